@@ -388,7 +388,7 @@ pub fn fastq(input: &[u8], from: usize, first_line: u64) -> Model {
         if nl.len() >= 3 {
             let l1 = &input[s..nl[0]];
             let l2 = &input[nl[0] + 1..nl[1]];
-            let l3 = &input[nl[1] + 1..nl[2]];
+            let _l3 = &input[nl[1] + 1..nl[2]];
             let (l4, l4_term, end) = if nl.len() == 4 {
                 (&input[nl[2] + 1..nl[3]], true, nl[3] + 1)
             } else {
